@@ -412,7 +412,8 @@ def main():
                            'events': [list(o) for o in hist]})
     cov['handler_product_bfs'] = e2
     # E1
-    cfgs = e1_configs(t)
+    from ..explorer import filter_deep
+    cfgs = filter_deep('C06', e1_configs(t))
     cap = int(os.environ.get('VERIF_CAP_S', '0')) or (None if t == 'quick' else 2400)
     for c in cfgs:
         c['max_seconds'] = cap
